@@ -65,6 +65,8 @@ impl<T> AtomicWeak<T> {
         #[cfg(feature = "circ_verif")]
         crate::verif::yp2(crate::verif::site::AW_STORE_SWAP, &self.link as *const _ as usize, new_ptr.verif_word(), 0);
         let old_ptr = self.link.swap(new_ptr, order);
+        #[cfg(feature = "circ_verif")]
+        crate::verif::ev(crate::verif::kind::LINK_SWAPPED, &self.link as *const _ as usize, old_ptr.verif_word(), 2);
         unsafe {
             if let Some(cnt) = old_ptr.as_raw().as_mut() {
                 RcInner::decrement_weak(cnt, Some(guard));
@@ -82,6 +84,8 @@ impl<T> AtomicWeak<T> {
         #[cfg(feature = "circ_verif")]
         crate::verif::yp2(crate::verif::site::AW_SWAP, &self.link as *const _ as usize, new_ptr.verif_word(), 0);
         let old_ptr = self.link.swap(new_ptr, order);
+        #[cfg(feature = "circ_verif")]
+        crate::verif::ev(crate::verif::kind::LINK_SWAPPED, &self.link as *const _ as usize, old_ptr.verif_word(), 3);
         Weak::from_raw(old_ptr)
     }
 
